@@ -2329,7 +2329,7 @@ func (e *c14Env) wipeEndState(stage string, raw c14Raw, r cliResult) bool {
 			}
 			clean = false
 			e.finding(fmt.Sprintf("wipe:%s:ref-left:%s:fetched-unmerged=%v", stage, cls, e.cs.Unmerged),
-				fmt.Sprintf("after `git-bug wipe` (exit %d) %s still lists %s; output: %s", r.Code, reader.name, ref, r.Out), ref)
+				fmt.Sprintf("after `git-bug wipe` (exit %d) %s still lists %s (gitraw: %q, for-each-ref: %q); output: %s", r.Code, reader.name, ref, raw.Refs[ref], raw.GitRefs[ref], r.Out), ref)
 		}
 	}
 	for _, line := range raw.Config {
